@@ -3,7 +3,10 @@ Every generator is a function of a random.Random."""
 from .terms import A, I, V, C, L, NIL
 
 ATOMS = ['a', 'b', 'c']
-VARNAMES = ['X', 'Y', 'Z', 'U', 'W']
+# besides ordinary names: names that a compiler-internal naming scheme (for `_`, arguments, loop variables,
+# labels) could collide with - every Prolog variable must stay its own variable
+VARNAMES = ['X', 'Y', 'Z', 'U', 'W', 'X', 'Y', 'Z', '_1', '_2', 'X1', 'X2', 'L1', 'Arg1', '_G1', '_x1', '_arg1', '__1',
+            'A1', 'Var1', 'DoBreak', 'CutIf1', '_l1', 'V1']
 
 
 def gen_term(rng, vars_, d, anon_ok=True, atoms=ATOMS):
@@ -50,7 +53,7 @@ def gen_prog_stratified(rng):
         ar = rng.choice([0, 1, 2, 2, 3])
         preds.append((name, ar))
         for ci in range(rng.choice([1, 2, 3])):
-            vars_ = [V(x) for x in rng.sample(VARNAMES, rng.choice([1, 2, 3]))]
+            vars_ = [V(x) for x in sorted(set(rng.sample(VARNAMES, rng.choice([1, 2, 3]))))]
             head = C(name, *[gen_term(rng, vars_, 2) for _ in range(ar)]) if ar else A(name)
             goals = []
             if pi > 0:
@@ -215,6 +218,11 @@ def leaf_facts():
     for pn, sols in LEAF_SOLS:
         for i in range(sols):
             facts.append((C(pn, A('%s%d' % (pn, i))), ('true',)))
+    # filters over the constants the leaves produce: make control flow depend on earlier bindings
+    for c in ('o0', 'm0', 'n0', 'n2'):
+        facts.append((C('ev', A(c)), ('true',)))
+    for c in ('m1', 'n1'):
+        facts.append((C('od', A(c)), ('true',)))
     return facts
 
 
@@ -239,6 +247,9 @@ def gen_control_case(rng, weights=None, maxdepth=4, allow_cut_p=0.7, nclauses=No
         if r < 0.30 and cut_ok and allow_cut:
             return ('cut',)
         pn = rng.choice(['z', 'o', 'm', 'm', 'n'])
+        if nv[0] and rng.random() < 0.3:
+            # reuse a variable that an earlier goal may have bound: a data-dependent test
+            return ('call', C(rng.choice(['ev', 'od', 'ev', 'od', pn]), V('V%d' % rng.randrange(1, nv[0] + 1))))
         return ('call', C(pn, newvar()))
 
     def body(d, cut_ok):
